@@ -937,22 +937,9 @@ var aggMenu = []aggSpec{
 // (nullsMax), so last when ascending and first when descending.
 func sortRows(rows []grow, ks keySpec, desc bool, noMissing bool) []grow {
 	out := append([]grow(nil), rows...)
-	// In sorted-input mode a spill whose last row has a missing primary key leaves
-	// maxSpillKey nil and the next release from the spill files dereferences it (panic in
-	// the group-by goroutine; findings keySortedSpillNil, replayed in a child process by the
-	// witness).  Where a spill can happen, keep missing out of the declared sort column.
-	if noMissing && ks.Expr != "a+1" && os.Getenv("C10_ALLOW_MISSING_SORT") == "" {
-		for i := range out {
-			if out[i].get(ks.Expr).Missing {
-				f := map[string]gval{}
-				for k, v := range out[i].F {
-					f[k] = v
-				}
-				f[ks.Expr] = mk("null(int64)")
-				out[i] = grow{ID: out[i].ID, F: f}
-			}
-		}
-	}
+	// (noMissing: before fix bcfe3221f a spill in sorted-input mode could panic on a missing
+	// primary key, and missing keys were kept out of the declared sort column; no longer.)
+	_ = noMissing
 	var vals []gval
 	for _, r := range out {
 		vals = append(vals, keyValue(ks, r))
@@ -1835,7 +1822,7 @@ func runWitnesses(c *Ctx) {
 		// dereferences it when it reaches the row with key 7.
 		runInChildN(c, gbCase{Kind: "groupby", Keys: []keySpec{{"k1", "k1"}, {"k2", "k2"}}, Aggs: []aggSpec{{"c", "count", "", ""}},
 			Rows: []string{`{id:0,k2:"a"}`, `{id:1,k2:"b"}`, `{id:2,k2:"c"}`, `{id:3,k1:7,k2:"a"}`, `{id:4,k1:5,k2:"a"}`},
-			Limit: 4, Sort: "k1:desc", Sizes: []int{5}}, keySortedSpillNil, 6)
+			Limit: 4, Sort: "k1:desc", Sizes: []int{5}}, keySortedSpillNil, 3)
 	})
 	expect(keyFusePanic, func() {
 		checkAgg(c, aggCase{Fn: "fuse", Vals: []string{"{a:1}", ""}, Chunks: []int{1, 1}})
